@@ -6,6 +6,7 @@ From Coq Require Import List NArith ZArith Bool String.
 From Coq Require Import Strings.Byte.
 From NfpmV Require Import Lib.Bytes Model.Path Model.Content Model.Meta Model.Cli.
 From NfpmV Require Import Proofs.C15Proofs.
+From NfpmV Require Import Model.Payload Model.Deb822 Proofs.ControlFields Spec.C15.
 Import ListNotations.
 Open Scope string_scope.
 
@@ -33,3 +34,16 @@ Example C15_witness :
   cli_plan [B "deb"; B "rpm"] (B "dist") true [] (B "x") = CliErr /\
   cli_plan [B "deb"; B "rpm"] (B "x.pkg.tar.zst") false [] (B "x") = CliErr.
 Proof. exact cli_witness. Qed.
+
+(* deb: the conventional file name is composed of what a reader finds in the control file of the package built from
+   the same settings - Package, Version without the epoch, Architecture - when the platform is linux (for another
+   platform the control file states platform-arch and the name does not: known finding C15-K2) *)
+Theorem C15_deb_filename_is_composed_of_control_fields : forall archtab i k,
+  control_single_lines archtab i k = true -> seqb (gs i "platform") (B "linux") = true ->
+  no_colon (gs i "epoch") = true -> (nonempty (gs i "epoch") = true \/ no_colon (deb_name_version i) = true) ->
+  exists fs name ver arch,
+    d_read (deb_control archtab i k) = Some fs
+    /\ d_get (B "Package") fs = Some name /\ d_get (B "Version") fs = Some ver /\ d_get (B "Architecture") fs = Some arch
+    /\ model_filename FDeb archtab i = (name ++ B "_" ++ strip_epoch ver ++ B "_" ++ arch ++ B ".deb")%list.
+Proof. exact deb_filename_is_composed_of_control_fields. Qed.
+Print Assumptions C15_deb_filename_is_composed_of_control_fields.
